@@ -166,8 +166,9 @@ CheckOut ==
     \* the test extension answers a completed handshake with one TestExtension RPC
     /\ \A p \in Peers :
          LET both(n) == N.my.test /\ n.rec[p].test
-             comp == (IF FirstNow /\ E.p = p /\ N1.up[p] /\ both(N1) THEN 1 ELSE 0)
-                     + (IF N.rec[p].has /\ p \notin InClosedNow /\ both(N) THEN UpsOf(p) ELSE 0)
+             comp == IF N1.proto[p] # V13 THEN 0
+                     ELSE (IF FirstNow /\ E.p = p /\ N1.up[p] /\ both(N1) THEN 1 ELSE 0)
+                          + (IF N.rec[p].has /\ p \notin InClosedNow /\ both(N) THEN UpsOf(p) ELSE 0)
              obs == Cardinality({i \in DOMAIN E.frames : E.frames[i].p = p /\ E.frames[i].testx})
          IN  obs # comp => NViol("P_X04_i", IF obs < comp THEN "test-rpc-missing" ELSE "test-rpc-unexpected", "", "", p, obs, comp)
 
@@ -244,7 +245,8 @@ CheckWiring(r2, r4, s3) ==
                 /\ \A a \in ObsPartial \ r2.sent :
                       NViol("P_X04_k", IF a.hasMsg /\ <<a.p, a.t>> \notin ReqSet(N) THEN "msg-to-non-requester"
                                        ELSE IF \E b \in r2.sent : b.p = a.p THEN "rpc-content" ELSE "rpc-unexpected", a.t, a.g, a.p, 0, 0)
-                /\ \A b \in r2.sent \ ObsPartial : NViol("P_X04_k", IF \E a \in ObsPartial : a.p = b.p THEN "rpc-content" ELSE "rpc-missing", b.t, b.g, b.p, 0, 0)
+                \* (an RPC for a peer without an outbound stream - state left behind by X04-F3 - goes nowhere)
+                /\ \A b \in r2.sent \ ObsPartial : N.up[b.p] => NViol("P_X04_k", IF \E a \in ObsPartial : a.p = b.p THEN "rpc-content" ELSE "rpc-missing", b.t, b.g, b.p, 0, 0)
                 /\ NPartialFrames # Cardinality(ObsPartial) => NViol("P_X04_k", "rpc-twice", E.t, E.g, "", 0, 0)
                 /\ E.ret.k # "" => NViol("P_X04_k", "publish-error", E.t, E.g, "", 0, 0)
                 /\ {CBSet(c) : c \in ObsCBs} # {CBSet(c) : c \in r2.cb} => NViol("P_X04_k", "states-offered", E.t, E.g, "", 0, 0)
@@ -262,11 +264,14 @@ CheckWiring(r2, r4, s3) ==
             IN  /\ \A c \in o \ x : NViol("P_X04_k", IF \E d \in x : d.t = c.t /\ d.g = c.g THEN "gossip-peers" ELSE "gossip-unexpected", c.t, c.g, "", 0, 0)
                 /\ \A d \in x \ o : (~\E c \in o : d.t = c.t /\ d.g = c.g) => NViol("P_X04_k", "gossip-missing", d.t, d.g, "", 0, 0)
          /\ \A a \in ObsPartial \ r4.sent : NViol("P_X04_k", IF \E b \in r4.sent : b.p = a.p /\ b.g = a.g THEN "gossip-rpc-content" ELSE "gossip-rpc-unexpected", a.t, a.g, a.p, 0, 0)
-         /\ \A b \in r4.sent \ ObsPartial : (~\E a \in ObsPartial : b.p = a.p /\ b.g = a.g) => NViol("P_X04_k", "gossip-rpc-missing", b.t, b.g, b.p, 0, 0)
+         /\ \A b \in r4.sent \ ObsPartial : (N1.up[b.p] /\ ~\E a \in ObsPartial : b.p = a.p /\ b.g = a.g) => NViol("P_X04_k", "gossip-rpc-missing", b.t, b.g, b.p, 0, 0)
     \* closed outbound streams
     /\ \A p \in Closers : Leftover(p) =>
          NViol("P_X04_k", IF ~N1.inOpen[p] THEN "as-found-inbound-closed-first"
+                          ELSE IF N.proto[p] # V13 THEN "as-found-old-protocol-peer-not-closed"
                           ELSE IF ~HasExt(N, p) THEN "as-found-requests-partial-without-extension" ELSE "state-after-close", "", "", p, 0, 0)
+    \* a partial RPC dispatched while the node has no outbound stream to the peer creates state that no stream event removes
+    /\ (Dispatch /\ InCB /\ ~N.up[E.p] /\ ~N1.up[E.p]) => NViol("P_X04_k", "as-found-state-without-outbound-stream", E.xpart.t, E.xpart.g, E.p, 0, 0)
     \* no partial RPC leaves the node in any other kind of step, no callback runs
     /\ (E.a \notin {"ppub", "hb"} /\ ObsPartial # {}) => NViol("P_X04_k", "rpc-unexpected", "", "", "", 0, 0)
     /\ (E.a \notin {"ppub", "hb"} /\ ~(E.sends /\ E.xpart.present) /\ E.cb # <<>>) => NViol("P_X04_k", "callback-unexpected", "", "", "", 0, 0)
@@ -297,6 +302,7 @@ NTags(r1, r2, r4) ==
         \cup tag(E.a = "ppub" /\ \E p \in MeshIdeal(E.t) : ~PeerReq(N, p, E.t), "supporter-gets-metadata")
         \cup tag(E.a = "hb" /\ E.hb = 1 /\ \E c \in r4.cb : c.k = "gossip", "gossip-wired") \cup tag(E.a = "hb" /\ r4.sent # {}, "gossip-rpc-sent")
         \cup tag(E.a = "hb" /\ E.hb = 1 /\ r4.gh.del # {}, "expiry-wired") \cup tag(E.a = "hb" /\ E.hb = 1 /\ \E x \in TG : At(r4.S, x).live, "ttl-countdown-wired")
+        \cup tag(Dispatch /\ InCB /\ ~N.up[E.p] /\ ~N1.up[E.p], "state-without-outbound-stream-seen")
         \cup tag(\E p \in Closers : RefHasState(S, p) /\ ~ObsHasState(p), "close-wired") \cup tag(\E p \in Closers : Leftover(p), "close-leak-seen")
         \cup tag(E.a \in {"publish", "msg"} /\ E.t \in Topics /\ \E p \in MeshOf(E.pretpeers, E.t) : N.up[p] /\ Suppressed(N, E.prejoined, p, E.t) /\ ~MsgTo(p, E.m), "full-message-suppressed")
         \cup tag(E.a \in {"publish", "msg"} /\ \E p \in Peers : MsgTo(p, E.m), "full-message-sent")
